@@ -1,6 +1,9 @@
 # Sizing and claim for C15 (see props/__init__.py)
 SPEC = {
-        "quick": {"rc_cases": 120000, "rc_procs": 8, "enum": True},
+        # a second build in which plain char is unsigned (the default on ARM / AArch64 / PowerPC Linux): table lookups and range
+        # tests written for a signed char must keep rejecting bytes >= 0x80
+        "variants": {"": [], "uchar": ["-funsigned-char"]},
+        "quick": {"rc_cases": 100000, "rc_procs": 6, "enum": True},
         "thorough": {"rc_cases": 150000, "rc_procs": 8, "enum": True, "fuzz_secs": 180, "fuzz_workers": 16},
         "claim": {
             "category": "exploration",
@@ -9,5 +12,6 @@ SPEC = {
             "level_note": "Trusts harness/ref/ref_codecs.h (acceptance predicates and arithmetic RFC 4648 decoder) as the reading of the statement, and ASan for writes beyond an exact-size block (the canary frame detects overruns of up to 24 bytes without it). Texts longer than about 420 characters are not generated.",
         },
         "assumptions": ["acceptance predicates and decoders in harness/ref/ref_codecs.h are a correct reading of the statement and of RFC 4648",
+                        "the whole check runs twice: with the platform's signed plain char and with -funsigned-char",
                         "ASan reports every access beyond the exact-size input and output blocks; overruns of up to 24 bytes are also seen by the canary frame without ASan"],
     }
